@@ -1,4 +1,5 @@
 import LimnoriaModel.C17.Model
+import LimnoriaModel.C17.Flatfile
 import LimnoriaModel.Driver.Core
 namespace C17
 open Py Wire
@@ -85,7 +86,22 @@ def decCfg : List String → Option Cfg
     pure ⟨fn, td, bd, mb, ae, tok, tok2, now, sd, blk⟩
   | _ => none
 
+def flatStates (disk : Bytes) (ops : List Flat.Op) : String :=
+  ",".intercalate ((List.range (ops.length + 1)).map fun k => encBytes (Flat.crashAt disk ops k))
+
 def drive : List String → String
+  | ["flatadd", d, l, h] =>
+    match decBytes d, decBytes l, decBytes h with
+    | some d, some l, some h => flatStates d (Flat.addOps l h)
+    | _, _, _ => "bad-op"
+  | ["flatset", d, off, bl, l] =>
+    match decBytes d, off.toNat?, decBytes bl, decBytes l with
+    | some d, some off, some bl, some l => flatStates d (Flat.setOps off bl l)
+    | _, _, _, _ => "bad-op"
+  | ["flatremove", d, off, bl] =>
+    match decBytes d, off.toNat?, decBytes bl with
+    | some d, some off, some bl => flatStates d (Flat.removeOps off bl)
+    | _, _, _ => "bad-op"
   | ["names", fn, td, bd, tok, tok2, now] =>
     match decCfg [fn, td, bd, "1", "1", tok, tok2, now, "1", "1"] with
     | some c => enc (tempName c) ++ "\t" ++ enc (backupName c) ++ "\t" ++ enc (siblingName c)
